@@ -1149,7 +1149,7 @@ RULES = lambda: [_R("Any", LEAF("p"), LEAF("q"), id="P1"), _cc("ccAny", LEAF("p"
 BUNDLE = lambda: _R("All", _R("Any", LEAF("p"), LEAF("q"), id="P7"), LEAF("r"))
 
 ALL_OPS = ["evaluate", "evaluate_all", "assume", "reduce", "negate", "errors", "to_json", "to_b64", "to_poly", "flatten", "flags",
-           "cfg_poly", "default_prios", "leafs", "select", "add", "reload_b64", "solve", "builtin", "select_raise"]
+           "cfg_poly", "default_prios", "leafs", "select", "add", "add_q", "reload_b64", "solve", "builtin", "select_raise"]
 
 def _fn_dict(d):
     return {k: list(v) for k, v in d.items()} if isinstance(d, dict) else {}
@@ -1352,8 +1352,8 @@ def run_c18(ctx):
                 _R("Imply", x_, _R("Any", p_, r_), id="R1"), _R("Imply", x_, _R("Any", p_, r_), id="R9"), _R("All", _R("Any", p_, r_), x_, id="R0"),
                 # a whole configurator (a package of rules with its own id) added as ONE rule
                 _cc("Cfg", _R("Any", p_, q_, id="K1"), _R("Any", q_, r_, id="K2"), id="pack"), _cc("Cfg", _R("Any", p_, x_, id="K3"), LEAF("y"))]
-    st2 = api_histories(ctx, "API_add_coincide", [(CfgR, CfgX)], ["add", "default_prios", "select"], 2, co_rules)
-    c2 = [c for c in history_cases(ctx, st2, [CfgR, CfgX]) if any(x["op"] == "add" for x in c["calls"])]
+    st2 = api_histories(ctx, "API_add_coincide", [(CfgR, CfgX)], ["add", "add_q", "default_prios", "select"], 2, co_rules)
+    c2 = [c for c in history_cases(ctx, st2, [CfgR, CfgX]) if any(x["op"] in ("add", "add_q") for x in c["calls"])]
     ctx.region("added_rule_shares_a_tagged_sub_proposition", len(c2))
     run_histories(ctx, cases + c2)
 
